@@ -1002,6 +1002,9 @@ pub struct ConcSockCase {
     pub per_thread: u16,
     /// every k-th emit is oversized (fails)
     pub fail_every: u8,
+    /// Some(capacity): a buffered sink (Unix only; no failures injected), stats vs datagrams received
+    #[serde(default)]
+    pub buffered: Option<u16>,
 }
 
 pub struct ConcSockCampaign;
@@ -1015,12 +1018,19 @@ impl Campaign for ConcSockCampaign {
         30
     }
     fn strategy(&self, _tier: Tier) -> BoxedStrategy<ConcSockCase> {
-        (prop_oneof![Just(Transport::Udp), Just(Transport::Unix)], 2u8..=8, 20u16..300, 0u8..6)
-            .prop_map(|(transport, threads, per_thread, fail_every)| ConcSockCase {
-                transport,
+        (
+            prop_oneof![Just(Transport::Udp), Just(Transport::Unix)],
+            2u8..=8,
+            20u16..300,
+            0u8..6,
+            prop::option::weighted(0.35, prop_oneof![Just(16u16), Just(64), Just(512), 16u16..300]),
+        )
+            .prop_map(|(transport, threads, per_thread, fail_every, buffered)| ConcSockCase {
+                transport: if buffered.is_some() { Transport::Unix } else { transport },
                 threads,
                 per_thread,
-                fail_every,
+                fail_every: if buffered.is_some() { 0 } else { fail_every },
+                buffered,
             })
             .boxed()
     }
@@ -1034,7 +1044,7 @@ impl Campaign for ConcSockCampaign {
         };
         let sc = SockCase {
             transport: case.transport,
-            buffered: None,
+            buffered: case.buffered.map(|c| Some(c as usize)),
             nonblocking: false,
             queued: false,
             addr_form: 0,
@@ -1112,6 +1122,9 @@ impl Campaign for ConcSockCampaign {
                 for j in handles {
                     let _ = j.join();
                 }
+                if case.buffered.is_some() {
+                    let _ = sink.flush();
+                }
                 std::thread::sleep(Duration::from_millis(2));
                 stop.store(true, Ordering::Release);
                 let _ = h.join();
@@ -1121,6 +1134,26 @@ impl Campaign for ConcSockCampaign {
         let truth = *results.lock().unwrap();
         let s = sink.stats();
         let mut verdict = Ok(());
+        if case.buffered.is_some() {
+            // buffered: emits return Ok without sending; ground truth = what arrived (Unix is reliable)
+            let rcv = *received.lock().unwrap();
+            if (s.packets_sent, s.bytes_sent, s.packets_dropped, s.bytes_dropped) != (rcv.0, rcv.1, 0, 0) {
+                verdict = Err(format!(
+                    "buffered sink, {} threads x {} emits, then flush: stats() = sent {}/{} B dropped {}/{} B, but {} datagrams / {} B arrived and no send failed",
+                    case.threads, case.per_thread, s.packets_sent, s.bytes_sent, s.packets_dropped, s.bytes_dropped, rcv.0, rcv.1
+                ));
+            }
+            let expected_bytes: u64 = truth.1 + truth.0; // every line + its newline
+            if verdict.is_ok() && rcv.1 != expected_bytes {
+                verdict = Err(format!("{} metric bytes (+{} newlines) were acknowledged but {} bytes arrived", truth.1, truth.0, rcv.1));
+            }
+            return Outcome {
+                verdict,
+                nontrivial: rcv.0 >= 2,
+                fingerprint: util::hash_json(case),
+                classes: vec!["concurrent emitters on one buffered sink"],
+            };
+        }
         if (s.packets_sent, s.bytes_sent, s.packets_dropped, s.bytes_dropped) != truth {
             verdict = Err(format!(
                 "after {} threads x {} emits: stats() = sent {}/{} B dropped {}/{} B, but emits returned Ok {} times ({} B) and Err {} times ({} B)",
